@@ -253,7 +253,7 @@ theorem cp_r (v : Variant) (p : Pfx) (r : R8) (hr : r ≠ .m) (s : Cpu) (b : β)
     rw [this]
     by_cases h : s.a = getR8 p r s
     · simp [h]
-    · have : ¬ (s.a - getR8 p r s = 0#8) := by intro e; apply h; bv_decide
+    · have : ¬ (s.a - getR8 p r s = 0#8) := fun e => h (eq_of_sub_eq_zero8 _ _ e)
       simp [h, this]
   · have := m.2.carry
     show tst (Spec.alu8 7 s.a (getR8 p r s) (tst s.f FC)).2 FC = _
@@ -354,6 +354,7 @@ theorem sbc16_meaning (a x : BitVec 16) (cin : Bool) :
 section anybus
 variable {β : Type} [Bus β]
 
+/-- writing HL/IX/IY and reading it back -/
 theorem idx_setIdx (p : Pfx) (w : BitVec 16) (s : Cpu) : (s.setIdx p w).idx p = w := by
   cases p <;> simp [Cpu.idx, Cpu.setIdx, Cpu.hl, Cpu.ix, Cpu.iy, Cpu.setHL, Cpu.setIX, Cpu.setIY, mk16_hi_lo]
 
